@@ -93,7 +93,7 @@ func VerifH_C24_cipher_suite_selection() {
 	hasAESGCMHardwareSupport = true // explicit lists; no AES-GCM deprioritisation (stated bound)
 	max := 2 // three suites per side exceed 200000 paths in either tier
 	client := c24Suites("client", max)
-	server := c24Suites("server", max+vr.Tier())
+	server := c24Suites("server", max)
 	if server == nil {
 		server = []uint16{}
 	}
@@ -155,6 +155,74 @@ func VerifH_C24_cipher_suite_selection() {
 		vr.Assert(err != nil && hs.suite == nil, "no common usable suite: handshake failure")
 		vr.Cover("none")
 	}
+}
+
+// C24 with the server's default suite list (Config.CipherSuites == nil): the documented
+// rule then also depends on the AES-GCM hardware heuristics — with server preference,
+// a client whose first known suite is not AES-GCM gets the other AEAD suites ahead of
+// AES-GCM; with client preference, a server without AES-GCM hardware does the same to
+// the client's list. The client offers two suites out of {ECDHE-RSA-AES128-GCM,
+// ECDHE-RSA-CHACHA20, ECDHE-RSA-AES128-CBC, RSA-AES128-CBC}; all key exchanges usable.
+// verif: covers=picked,none
+func VerifH_C24_cipher_suite_selection_default_list() {
+	c24SendAlertStub()
+	hw := vr.Bool("serverHasAESGCMHardware")
+	hasAESGCMHardwareSupport = hw
+	pool := []uint16{TLS_ECDHE_RSA_WITH_AES_128_GCM_SHA256, TLS_ECDHE_RSA_WITH_CHACHA20_POLY1305, TLS_ECDHE_RSA_WITH_AES_128_CBC_SHA, TLS_RSA_WITH_AES_128_CBC_SHA}
+	var client []uint16
+	for i, n := 0, vr.Int("client#", 0, 2); i < n; i++ {
+		client = append(client, pool[vr.Pick(vr.Int("client", 0, 3))])
+	}
+	cfg := &Config{PreferServerCipherSuites: vr.Bool("preferServer")}
+	hs := &serverHandshakeState{c: &Conn{config: cfg, vers: VersionTLS12}, clientHello: &clientHelloMsg{cipherSuites: client, vers: VersionTLS12},
+		ecdheOk: true, ecSignOk: true, rsaSignOk: true, rsaDecryptOk: true}
+	err := hs.pickCipherSuite()
+	if len(client) == 0 {
+		vr.Assert(err != nil, "nothing offered: handshake failure")
+		vr.Cover("none")
+		return
+	}
+	isGCM := func(id uint16) bool { return id == TLS_ECDHE_RSA_WITH_AES_128_GCM_SHA256 }
+	isChaCha := func(id uint16) bool { return id == TLS_ECDHE_RSA_WITH_CHACHA20_POLY1305 }
+	var want uint16
+	if cfg.PreferServerCipherSuites {
+		// server order: the AEAD suites lead the default list (AES-GCM first when the server
+		// has the hardware, ChaCha20 first otherwise), then ECDHE-CBC, then RSA-CBC; AES-GCM
+		// drops behind ChaCha20 when the client's first suite is not AES-GCM
+		gcmFirst := hw && isGCM(client[0])
+		rank := func(id uint16) int {
+			switch {
+			case isGCM(id):
+				if gcmFirst {
+					return 0
+				}
+				return 1
+			case isChaCha(id):
+				if gcmFirst {
+					return 1
+				}
+				return 0
+			case id == TLS_ECDHE_RSA_WITH_AES_128_CBC_SHA:
+				return 2
+			}
+			return 3
+		}
+		want = client[0]
+		for _, id := range client {
+			if rank(id) < rank(want) {
+				want = id
+			}
+		}
+	} else {
+		// client order, except that a server without AES-GCM hardware moves an AES-GCM suite
+		// behind an adjacent other AEAD suite
+		want = client[0]
+		if !hw && len(client) == 2 && isGCM(client[0]) && isChaCha(client[1]) {
+			want = client[1]
+		}
+	}
+	vr.Assert(err == nil && hs.suite != nil && hs.suite.id == want, "the suite the documented preference rule selects")
+	vr.Cover("picked")
 }
 
 type c24Rand struct{}
